@@ -863,6 +863,12 @@ pub fn main() -> i32 {
         return 2;
     }
     sched::install();
+    // From here on the code under test runs: the very first thread::spawn of this process creates
+    // the executor thread.  `boot` is written before it, `hello` after the new thread has started:
+    // a process that dies in between died inside / right after its first spawn call.
+    ev::OUT_FD.store(fd, Ordering::SeqCst);
+    Ev::new("boot").u("main", sys::gettid() as u64).emit();
+    sched::LOG_POINTS.store(false, Ordering::SeqCst);
     // executor thread, created by the code under test itself but outside every scenario
     let h = tiny_std::thread::spawn(h_main);
     match h {
@@ -875,7 +881,7 @@ pub fn main() -> i32 {
     while sched::PARTIES[0].tid.load(Ordering::SeqCst) == 0 {
         sys::sleep_us(100);
     }
-    ev::OUT_FD.store(fd, Ordering::SeqCst);
+    sched::LOG_POINTS.store(true, Ordering::SeqCst);
     calloc::LOG.store(true, Ordering::SeqCst);
     Ev::new("hello")
         .u("main", sys::gettid() as u64)
